@@ -184,6 +184,19 @@ def referer_class(value):
     return 'https' if value.startswith('https://') else ('http' if value.startswith('http://') else 'other')
 
 
+def referer_creds(value, to_host_name):
+    """Does a Referer value carry user-info, and does it go to the host it belongs to?"""
+    import urllib.parse
+    try:
+        sp = urllib.parse.urlsplit(value)
+    except ValueError:
+        return 'none'
+    if '@' not in sp.netloc:
+        return 'none'
+    host = sp.netloc.rpartition('@')[2].rpartition(':')[0] or sp.netloc.rpartition('@')[2]
+    return 'same' if host.lower() == (to_host_name or '').lower() else 'foreign'
+
+
 def project(addr, head, client_url, proxied):
     """One `send` event: what the server saw, against where the request was delivered."""
     h, sch, pc = listener_host(addr)
@@ -206,6 +219,9 @@ def project(addr, head, client_url, proxied):
             'cookies': cookies,
             'referer': ([referer_class(v) for n, v in f if n == 'referer'] or ['none'])[0],
             'nreferer': sum(1 for n, v in f if n == 'referer'),
+            'refcred': ([referer_creds(v, ([hv for hn, hv in f if hn == 'host'] or [''])[0].rpartition(':')[0]
+                                       or ([hv for hn, hv in f if hn == 'host'] or [''])[0])
+                         for n, v in f if n == 'referer'] or ['none'])[0],
             'wf': blk['wf'], 'why': blk['why'], 'ctl': blk['ctl'], 'proxied': proxied}
 
 
